@@ -56,7 +56,17 @@ const SOURCES: [&str; 2] = ["https://x.com/", "https://y.com/"];
 const BASE: &str = "https://x.com/p";
 
 fn rule_sets(max: usize) -> Vec<Vec<&'static str>> {
-    vh::util::subsets_of(&POOL).into_iter().filter(|s| s.len() <= max).collect()
+    // every set of <= max rules, plus four sets of three in which two rules that can apply to the
+    // same request name the same parameter and a third names another one (the thorough tier has
+    // every set of three anyway)
+    let mut v: Vec<Vec<&'static str>> = vh::util::subsets_of(&POOL).into_iter().filter(|s| s.len() <= max).collect();
+    if max < 3 {
+        v.push(vec!["*$removeparam=a", "*$removeparam=a,domain=y.com", "*$removeparam=b"]);
+        v.push(vec!["*$removeparam=b", "*$removeparam=b,important", "*$removeparam=a"]);
+        v.push(vec!["*$removeparam=b", "*$removeparam=b,~xhr", "$removeparam=utm"]);
+        v.push(vec!["*$removeparam=a", "*$removeparam=a,domain=y.com", "$removeparam=utm"]);
+    }
+    v
 }
 
 struct Subject {
@@ -216,6 +226,38 @@ fn check(ctx: &Ctx) -> i32 {
                 for ty in TYPES {
                     for src in SOURCES {
                         check_one(s, &suffix, ty, src, l);
+                    }
+                }
+            }
+        });
+    });
+    // whole parameters as symbols: every sequence of <= 3 (thorough 4) distinct parameters of a
+    // 7-parameter menu (several rule-named parameters with values in one query, which the
+    // character-level sweeps only reach at their longest lengths)
+    let menu = ["a=1", "b=1", "utm=1", "c=1", "a=", "b", "a=2"];
+    let plen: u32 = ctx.tier.pick(3, 4);
+    ctx.bound("parameter_menu", json!(menu));
+    ctx.bound("parameter_sequences_max_len", plen);
+    let nseq = vh::util::count_arrangements_upto(menu.len() as u64, plen);
+    ctx.par_range("parameter sequences", nseq, 16, |i, l| {
+        let mut idx = vec![];
+        vh::util::nth_arrangement(i, menu.len() as u64, &mut idx);
+        if idx.is_empty() {
+            return;
+        }
+        let suffix = format!("?{}", idx.iter().map(|&k| menu[k]).collect::<Vec<_>>().join("&"));
+        SUBJECTS.with(|cell| {
+            let mut b = cell.borrow_mut();
+            if b.is_none() {
+                let v: Vec<Subject> = rule_sets(max_rules).iter().map(|t| build(t)).collect();
+                l.states += v.len() as u64;
+                *b = Some(v);
+            }
+            for s in b.as_ref().unwrap() {
+                for ty in TYPES {
+                    for src in SOURCES {
+                        check_one(s, &suffix, ty, src, l);
+                        check_one(s, &format!("{}#f", suffix), ty, src, l);
                     }
                 }
             }
